@@ -444,9 +444,10 @@ PROPS["C19"] = dict(
                "channels, for EVERY sequence of events create / deliver k / relayPoll / recvPoll / prodPoll from fresh stores: after k consumed messages the receiver holds exactly the producer's first k+2 "
                "nodes in order, the relay likewise (C19.mirror_prefix), nothing is lost, duplicated or reordered (stream_conservation), drained channels give identical tables also through the chain "
                "(drained_equal, drain_reaches_equal), a poll answers found iff the handle is present after polling (poll_found_iff) and consumes exactly what it must (poll_exact), the relay forwards "
-               "exactly what it consumed (relay_forwards); the same with the proved diagram store as producer (mirror_prefix_store, drained_equal_store). Tie to the code: a real producer Bdd on its own "
-               "thread with a zero-capacity sender, the harness forwarding message by message so that every cut of the stream can be placed before every poll deterministically, plus a relay, plus "
-               "free-running two-thread soak runs; node tables compared index by index with the model.",
+               "exactly what it consumed (relay_forwards) and neither its table nor its answers depend on the receiver downstream, which may stop polling or go away at any point "
+               "(relay_independent_of_receiver, relay_answers_independent_of_receiver); the same with the proved diagram store as producer (mirror_prefix_store, drained_equal_store). Tie to the code: a real producer Bdd on its own "
+               "thread with a zero-capacity sender, the harness forwarding message by message so that every cut of the stream can be placed before every poll deterministically, plus a relay, every fifth schedule dropping the final "
+               "receiver in mid-stream, plus free-running two-thread soak runs; node tables compared index by index with the model.",
     level_note="Trusted: Lean kernel + standard axioms; crossbeam-channel FIFO/lossless behaviour and thread timing are assumptions observed by the cut-controlled and soak runs; the receiver's unique table "
                "and variable lists are not modelled (recv appends nodes verbatim).",
     technique="Lean 4 proof (invariant over all event interleavings of a FIFO system) + schedule-controlled correspondence with the real channel implementation",
